@@ -71,11 +71,16 @@ def splice(x, p):
     kind = p['kind']
     pos = x.choice('pos', [0, 1, 2])
     final_nl = x.choice('final_nl', [True, False])
-    tab = x.choice('tab', [None, 0, 1, 2, 3]) if kind == 'p8' else None
+    tab = x.choice('tab', [None, 0, 1, 2, 3]) if kind != 'lua' else None
     sub = x.choice('sub', ['', 'lib/'])
     name = sub + ('inc.lua' if kind == 'lua' else 'inc.p8')
+    # a non-include line that merely mentions an include must stay a line
+    pre = x.bytes('pre', p.get('npre', 0))
+    for k in range(len(pre)):
+        x.assume(And(pre[k] != 10, pre[k] != 13))
+    blank_pre = And(*[Or(c == 32, c == 9, c == 11, c == 12) for c in pre])
     sel = '' if tab is None else ':%d' % tab
-    inc_line = ('#include ' + name + sel + '\n').encode()
+    inc_line = pre + ('#include ' + name + sel + '\n').encode()
     cart = [b'a=1\n', b'b=2\n']
     cart.insert(pos, inc_line)
     content = b'x=1\ny=2' + (b'\n' if final_nl else b'')
@@ -89,6 +94,11 @@ def splice(x, p):
         opened.append(path)
         if kind == 'lua':
             return hx.MemStream(content)
+        if kind == 'p8bare':
+            # a cart that ends inside its code, with or without a line end
+            return hx.MemStream(P8_TEXT[:P8_TEXT.index(b'__gfx__')] if
+                                final_nl else
+                                P8_TEXT[:P8_TEXT.index(b'__gfx__') - 1])
         return hx.MemStream(P8_TEXT)
     hx.patch(x, os.path, 'isfile', isfile)
     hx.patch(x, builtins, 'open', fake_open)
@@ -101,6 +111,13 @@ def splice(x, p):
     except Exception as e:
         x.check('include does not raise on an existing target', False,
                 info=repr(e))
+        return
+    if not blank_pre:
+        x.tag('not an include line')
+        x.check('a line that only mentions #include further on is left '
+                'unchanged and nothing is opened',
+                And(err is None, len(opened) == 0,
+                    out is not None and b''.join(out) == b''.join(cart)))
         return
     if missing:
         x.check('a missing include target fails the load', err == 'notfound')
@@ -135,5 +152,8 @@ HARNESSES = [
                       dict(Q, n=4, L=4, _budget=2400)]),
     Harness('splice', splice,
             quick=[dict(Q, kind='lua'), dict(Q, kind='p8'),
-                   dict(Q, kind='lua', missing=True)]),
+                   dict(Q, kind='p8bare'),
+                   dict(Q, kind='lua', npre=1), dict(Q, kind='lua', npre=2),
+                   dict(Q, kind='lua', missing=True),
+                   dict(Q, kind='lua', missing=True, npre=1)]),
 ]
